@@ -132,7 +132,7 @@ func (p *c28Pool) exec(cs c28Case) c28Reply {
 	// after that is stuck in a call that ignores the context
 	watchdog := 90 * time.Second
 	if cs.WallMS > 0 {
-		watchdog = 10*time.Second + 3*time.Duration(cs.WallMS)*time.Millisecond
+		watchdog = 6*time.Second + 3*time.Duration(cs.WallMS)*time.Millisecond
 	}
 	if s := os.Getenv("VERIF_C28_WATCHDOG_S"); s != "" {
 		var n int
